@@ -266,18 +266,18 @@ def normalize_url(
             url = normalize_youtube_url(url)
 
     # Parsing
+    # NOTE: accessing the port can also raise
     try:
         splitted = urlsplit(url)
+        scheme, netloc, path, query, fragment = splitted
+        user, password, hostname, port = (
+            splitted.username,
+            splitted.password,
+            splitted.hostname,
+            splitted.port,
+        )
     except ValueError:
         return original_url_arg
-
-    scheme, netloc, path, query, fragment = splitted
-    user, password, hostname, port = (
-        splitted.username,
-        splitted.password,
-        splitted.hostname,
-        splitted.port,
-    )
 
     # Fixing common mistakes
     if fix_common_mistakes and query:
